@@ -120,6 +120,13 @@ def _cases(M, E, J, Tk, it):
         ("e.Jets().SelectMany(lambda j: j.Tracks()).First().charge()", int),
         ("e.Jets().Where(lambda j: j.pt() > 1)", it(J)),
         ("e.Jets().Where(lambda j: j.isGood()).First()", J),
+        # operator lambdas passed by KEYWORD
+        ("e.Jets().Where(filter=lambda j: j.pt() > 1)", it(J)),
+        ("e.Jets().Where(filter=lambda j: j.pt() > 1).Count()", int),
+        ("e.Jets().Where(filter=lambda j: j.isGood()).Select(lambda j: j.ntrk())", it(int)),
+        ("e.Jets().Select(f=lambda j: j.pt())", it(float)),
+        ("e.Jets().SelectMany(func=lambda j: j.Tracks())", it(Tk)),
+        ("e.Jets().Select(lambda j: j.Tracks().Where(filter=lambda t: t.good()).Count())", it(int)),
         ("e.Jets().Select(lambda j: j.Tracks().Where(lambda t: t.good()).Count())", it(int)),
         ("e.Jets().Select(lambda j: j.Tracks().Select(lambda t: t.pt()))", it(it(float))),
         ("e.JColl().Select(lambda j: j.mass())", it(float)),
@@ -235,7 +242,8 @@ class TGen:
         v = self.fresh(scope)
         sc = [(n, t_) for n, t_ in scope if n != v] + [(v, src_elt)]
         body = self.val(elt, sc, d) if elt not in (self.J, self.Tk) else self.obj(elt, sc, d)
-        return None if body is None else f"{c}.Select(lambda {v}: {body})"
+        kw = "f=" if self.rng.random() < 0.2 else ""
+        return None if body is None else f"{c}.Select({kw}lambda {v}: {body})"
 
     def where(self, elt, scope, d):
         c = self.coll(elt, scope, d)
@@ -244,7 +252,8 @@ class TGen:
         v = self.fresh(scope)
         sc = [(n, t_) for n, t_ in scope if n != v] + [(v, elt)]
         body = self.val(bool, sc, d)
-        return None if body is None else f"{c}.Where(lambda {v}: {body})"
+        kw = "filter=" if self.rng.random() < 0.2 else ""
+        return None if body is None else f"{c}.Where({kw}lambda {v}: {body})"
 
     def smany(self, src_elt, elt, scope, d):
         c = self.coll(src_elt, scope, d)
@@ -253,7 +262,8 @@ class TGen:
         v = self.fresh(scope)
         sc = [(n, t_) for n, t_ in scope if n != v] + [(v, src_elt)]
         body = self.coll(elt, sc, d)
-        return None if body is None else f"{c}.SelectMany(lambda {v}: {body})"
+        kw = "func=" if self.rng.random() < 0.2 else ""
+        return None if body is None else f"{c}.SelectMany({kw}lambda {v}: {body})"
 
     def val(self, ty, scope, d):
         """source of an expression of scalar type ty (num / other / bool)."""
